@@ -222,6 +222,7 @@ impl<S: Storage> Builder<S> {
                     .map(|id| self.node(*id).as_column())
                     .collect_vec();
                 // analyze range filter
+                let cond = filter;
                 let filter = {
                     use std::ops::Bound;
                     let mut egraph = egg::EGraph::new(ExprAnalysis::default());
@@ -269,13 +270,21 @@ impl<S: Storage> Builder<S> {
                     }
                     .execute()
                 } else {
-                    TableScanExecutor {
+                    // the storage only applies key ranges: any other condition (e.g. a
+                    // contradictory range folded to `false`) has to be evaluated on its output
+                    let residual = (filter.is_none() && *self.node(cond) != Expr::true_())
+                        .then(|| self.resolve_column_index(cond, id));
+                    let scan = TableScanExecutor {
                         table_id,
                         columns,
                         filter,
                         storage: self.storage.clone(),
                     }
-                    .execute()
+                    .execute();
+                    match residual {
+                        Some(condition) => FilterExecutor { condition }.execute(scan),
+                        None => scan,
+                    }
                 }
             }
 
